@@ -66,12 +66,45 @@ const CANARY: u8 = 0xC7;
 
 /// run inflate over `stream` with the given chunk boundaries and header capture; returns Err on violation
 #[allow(clippy::too_many_arguments)]
-fn read_case(c: &mut Case, env: &Env, renv: &ReadEnv, stream: &[u8], f: &GzFields, hdr_len: usize, body: &[u8], cuts: &[usize], caps: (Cap, Cap, Cap)) -> Result<(), String> {
+fn read_case(c: &mut Case, env: &Env, renv: &ReadEnv, stream: &[u8], f: &GzFields, hdr_len: usize, body: &[u8], cuts: &[usize], caps: (Cap, Cap, Cap), recycle: u8) -> Result<(), String> {
     unsafe {
         let mut s = Strm::guarded(0x3C);
         let r = Rs::inflateInit2_(s.p(), 31, Rs::zlibVersion(), STREAM_SIZE);
         if r != Z_OK {
             return Err("inflateInit2 failed".into());
+        }
+        // recycled streams: the state machine has been somewhere else before the reset
+        if recycle != 0 {
+            let prior: Vec<u8> = match recycle {
+                // a gzip member abandoned in the middle of a 300-byte stored block
+                1 => {
+                    let mut p = GzFields { os: 3, ..Default::default() }.write();
+                    p.extend_from_slice(&[0x00, 0x2c, 0x01, 0xd3, 0xfe]);
+                    p.extend(std::iter::repeat(0x41).take(120));
+                    p
+                }
+                // abandoned inside a match (fixed block: literal, then match 258 at distance 1), output room too small
+                2 => {
+                    let mut p = GzFields { os: 3, name: Some(b"previous-name".to_vec()), ..Default::default() }.write();
+                    p.extend_from_slice(&build(&[Plan::Fixed(vec![crate::refs::builder::Tok::Lit(b'z'), crate::refs::builder::Tok::Match(258, 1)])]));
+                    p
+                }
+                // an invalid stream (data error)
+                _ => vec![0x1f, 0x8b, 0x08, 0x00, 0, 0, 0, 0, 0, 3, 0x07, 0x00],
+            };
+            let pin = env.ain.put(&prior, true);
+            let pout = env.aout.at_end(100);
+            s.z.next_in = pin;
+            s.z.avail_in = prior.len() as u32;
+            s.z.next_out = pout;
+            s.z.avail_out = 100;
+            let _ = Rs::inflate(s.p(), Z_NO_FLUSH);
+            c.exec();
+            let r = if recycle == 2 { Rs::inflateReset2(s.p(), 31) } else { Rs::inflateReset(s.p()) };
+            if r != Z_OK {
+                Rs::inflateEnd(s.p());
+                return Err(format!("inflateReset on the recycled stream returned {}", rc_name(r)));
+            }
         }
         let mut head = Box::new(zeroed_header());
         // capture buffers: end flush against a guard page, with a canary region before for the unused part
@@ -324,8 +357,18 @@ fn read_side(ctx: &mut Ctx, env: &Env) {
                             caps
                         )
                     },
-                    |c| read_case(c, env, &renv, &stream, f, hl, &body, cuts, *caps),
+                    |c| read_case(c, env, &renv, &stream, f, hl, &body, cuts, *caps, 0),
                 );
+                // the same on recycled streams (one-call and 1-byte chunkings, and every 5th single split)
+                if ci < 2 || (ci + k) % 5 == 0 {
+                    for recycle in 1..=3u8 {
+                        ctx.case(
+                            "gzhdr-read-recycled",
+                            || format!("recycled stream (prior use {recycle}: 1 = abandoned mid stored block, 2 = abandoned inside a match, 3 = after a data error; then inflateReset) header[extra={:?} name={:?} comment={:?} hcrc={}] hdr_len={hl} cuts={} caps={:?}", f.extra.as_ref().map(|v| v.len()), f.name.as_ref().map(|v| v.len()), f.comment.as_ref().map(|v| v.len()), f.hcrc as u8, if cuts.len() > 3 { format!("every byte ({} pieces)", cuts.len() + 1) } else { format!("{cuts:?}") }, caps),
+                            |c| read_case(c, env, &renv, &stream, f, hl, &body, cuts, *caps, recycle),
+                        );
+                    }
+                }
             }
         }
     }
